@@ -169,9 +169,14 @@ func (p *parser) matchIf(predicate itemPredicate, tokens ...interface{}) (matche
 
 // parseClass parses a class. The "class" token was already consumed.
 func (p *parser) parseClass() {
-	var name string
+	var name item
 	p.match(&name, "implements", "Namespace", "{")
-	p.namespace = namespace{Name: name}
+	if _, ok := namespaceQuery(p.namespaces).find(name.Val); ok {
+		// The type checks resolve a name to its first declaration, the
+		// namespace manager to its last.
+		p.addErr(name, "namespace %q is declared more than once", name.Val)
+	}
+	p.namespace = namespace{Name: name.Val}
 
 	for !p.fatal {
 		switch item := p.next(); {
